@@ -259,6 +259,35 @@ def rule_round(prog: Program, modules: Set[str]) -> List[Instance]:
                     if signed:
                         out.append(Instance("R-ROUND", f"{fi.qual}#round:abs-after-{call_name(a)}:{short(n, 40)}", BAD,
                                             f"`{short(n, 60)}` rounds first and takes the magnitude afterwards: for a negative argument {call_name(a)} rounds towards zero, so the magnitude comes out one short (ceil(-3.2) = -3)", fi.where(n)))
+            # power-of-two idioms: 1 << n.bit_length() is the smallest power of two STRICTLY greater than n
+            # (exact powers are doubled); "smallest power >= x" needs (x - 1).bit_length(), "largest power <= x"
+            # needs bit_length() - 1
+            sh = None
+            if isinstance(n, ast.BinOp) and isinstance(n.op, ast.LShift) and const_num(n.left) == 1:
+                sh = n.right
+            elif isinstance(n, ast.BinOp) and isinstance(n.op, ast.Pow) and const_num(n.left) == 2:
+                sh = n.right
+            if sh is not None:
+                bl = [c for c in ast.walk(sh) if isinstance(c, ast.Call) and isinstance(c.func, ast.Attribute) and c.func.attr == "bit_length"]
+                if bl:
+                    recv = bl[0].func.value
+                    while isinstance(recv, ast.Call) and call_name(recv) == "int" and recv.args:
+                        recv = recv.args[0]
+                    minus1_inside = isinstance(recv, ast.BinOp) and isinstance(recv.op, ast.Sub) and const_num(recv.right) == 1
+                    minus1_outside = isinstance(sh, ast.BinOp) and isinstance(sh.op, ast.Sub) and const_num(sh.right) == 1
+                    lname = fi.name.lower()
+                    want = "up" if ("up" in lname or "ceil" in lname or "next" in lname) else "down" if ("down" in lname or "floor" in lname or "prev" in lname) else None
+                    cid0 = f"{fi.qual}#round:pow2-idiom:{short(n, 40)}"
+                    if want == "up":
+                        okp = minus1_inside and not minus1_outside
+                        out.append(Instance("R-ROUND", cid0, OK if okp else BAD,
+                                            "smallest power of two >= x via (x - 1).bit_length()" if okp else
+                                            f"`{short(n, 50)}` is the smallest power of two strictly greater than its argument: an exact power (8) is doubled (16) although {fi.name} promises the smallest power >= x", fi.where(n)))
+                    elif want == "down":
+                        okp = minus1_outside and not minus1_inside
+                        out.append(Instance("R-ROUND", cid0, OK if okp else BAD,
+                                            "largest power of two <= x via bit_length() - 1" if okp else
+                                            f"`{short(n, 50)}` does not compute the largest power of two <= x (needs bit_length() - 1)", fi.where(n)))
         sites = find_sites(fi)
         counter: Dict[str, int] = {}
         for s in sites:
